@@ -2,6 +2,14 @@ import JoblibModel.FilterArgs
 /-! Helper lemmas for C07 (kept apart from the property theorems). Core Lean only. -/
 namespace JoblibModel.FilterArgs
 
+/-- Results can be compared by `decide` (concrete witnesses only). -/
+instance instDecEqExcept {ε α : Type} [DecidableEq ε] [DecidableEq α] : DecidableEq (Except ε α)
+  | .ok a, .ok b => if h : a = b then isTrue (by rw [h]) else isFalse (by intro e; cases e; exact h rfl)
+  | .error a, .error b =>
+    if h : a = b then isTrue (by rw [h]) else isFalse (by intro e; cases e; exact h rfl)
+  | .ok _, .error _ => isFalse (by intro e; cases e)
+  | .error _, .ok _ => isFalse (by intro e; cases e)
+
 /-! ### Python dict as association list -/
 section PyDict
 variable {κ ν : Type} [DecidableEq κ]
@@ -1048,5 +1056,321 @@ theorem named_length (s : Sig) :
   | cons p ps ih =>
     obtain ⟨n, k, dv⟩ := p
     cases k <;> simp [List.filter_cons, Param.named, Param.positional, Param.is, ih] <;> omega
+
+/-! ### Putting the phases together -/
+
+theorem WalkOK.memOK {w : Walk} {s : Sig} (ok : WalkOK w s) (h : WF s) {p : Param} (hp : p ∈ s) :
+    MemOK w p := by
+  refine ⟨ok.mem_kwonly h hp, ok.mem_posonly h hp, ok.defaults p hp, ?_⟩
+  intro hk
+  rw [ok.varargs, List.any_eq_true]
+  exact ⟨p, hp, by simp [Param.is, hk]⟩
+
+theorem named_of_byKeyword {p : Param} (h : p.byKeyword = true) : p.named = true := by
+  revert h; simp only [Param.byKeyword, Param.named]; cases p.kind <;> simp
+
+theorem byKeyword_of_named {p : Param} (h : p.named = true) (h2 : p.kind ≠ .posOnly) :
+    p.byKeyword = true := by
+  revert h h2; simp only [Param.byKeyword, Param.named]; cases p.kind <;> simp
+
+/-- On the dict the main loop built, the keyword loop's test singles out exactly the keywords
+that name a positional-or-keyword or keyword-only parameter. -/
+theorem kwTaken_iff {w : Walk} {s : Sig} (ok : WalkOK w s) (h : WF s) {b : List (Nat × Val)}
+    (hl : b.length = s.length) (k : Nat) :
+    kwTaken w (parts Param.named s b) k = true ↔ k ∈ kwNames s := by
+  have hkeys := parts_named_keys (ps := s) (b := b) hl
+  simp only [kwTaken, decide_eq_true_eq, dget_isSome_iff, hkeys, ok.posonly]
+  simp only [List.mem_map, List.mem_filter, kwNames]
+  constructor
+  · rintro ⟨⟨n, ⟨p, ⟨hp, hnamed⟩, rfl⟩, hn⟩, hnot⟩
+    cases hn
+    refine ⟨p, ⟨hp, byKeyword_of_named hnamed ?_⟩, rfl⟩
+    intro hk
+    exact hnot ⟨p, ⟨hp, by simp [Param.is, hk]⟩, rfl⟩
+  · rintro ⟨p, ⟨hp, hbk⟩, rfl⟩
+    refine ⟨⟨p.name, ⟨p, ⟨hp, named_of_byKeyword hbk⟩, rfl⟩, rfl⟩, ?_⟩
+    rintro ⟨q, ⟨hq, hqk⟩, e⟩
+    have := eq_of_name_eq h.nodup_names hq hp e
+    subst this
+    have := (not_is_of_byKeyword hbk).2.2
+    rw [this] at hqk; simp at hqk
+
+theorem core_nil_ignore (w : Walk) (ig : List Key) (args : List Nat) (kwargs : List (Nat × Nat)) :
+    core w ig args kwargs =
+      match core w [] args kwargs with
+      | .ok d => ignoreLoop ig d
+      | .error e => .error e := by
+  unfold core
+  cases mainLoop w args kwargs w.argNames 0 [] with
+  | error e => rfl
+  | ok d =>
+    simp only
+    cases kwLoop w (sortKw kwargs) d [] with
+    | error e => rfl
+    | ok r => simp [ignoreLoop]
+
+/-- The heart of C07: for any locals `w` that describe the signature `s` faithfully, the body of
+`filter_args` yields Python's bound mapping. -/
+theorem core_eq_bind {w : Walk} {s : Sig} (hwf : WF s) (ok : WalkOK w s) {args : List Nat}
+    {kwargs : List (Nat × Nat)} {b : List (Nat × Val)} (hc : (kwargs.map Prod.fst).Nodup)
+    (hb : bindGo s args kwargs = .ok b) :
+    ∃ d, core w [] args kwargs = .ok d ∧ SameDict d (rename s b) := by
+  have hnames := bindGo_names hb
+  have hlen : b.length = s.length := by
+    have := congrArg List.length hnames; simpa using this
+  -- phase 1: the enumerate(arg_names) loop
+  have h1 : mainLoop w args kwargs w.argNames 0 [] = .ok (parts Param.named s b) := by
+    rw [ok.names]
+    have := mainLoop_spec w args kwargs s 0 [] args kwargs b hwf (fun p hp => ok.memOK hwf hp)
+      (.inl (by simp)) (fun _ _ => rfl) (fun _ _ => rfl) hb
+    simpa using this
+  -- keys of that dict
+  have hkeys := parts_named_keys (ps := s) (b := b) hlen
+  have hnd : ((parts Param.named s b).map Prod.fst).Nodup := by
+    rw [hkeys]
+    have h1 : ((s.filter Param.named).map (·.name)).Nodup :=
+      List.Nodup.sublist (List.Sublist.map _ List.filter_sublist) hwf.nodup_names
+    rw [List.Nodup, List.pairwise_map]
+    exact h1.imp (fun hne e => hne (by simpa using e))
+  have hstar_none : dget Key.star (parts Param.named s b) = none := by
+    rw [dget_none_iff, hkeys]; simp
+  have hdstar_none : dget Key.dstar (parts Param.named s b) = none := by
+    rw [dget_none_iff, hkeys]; simp
+  -- phase 2: the sorted(kwargs.items()) loop
+  obtain ⟨hds, hfin⟩ := bindGo_dstar hwf hc hb
+  have hsperm := sortKw_perm kwargs
+  have hsnd : ((sortKw kwargs).map Prod.fst).Nodup := (hsperm.map Prod.fst).nodup_iff.mpr hc
+  have h2 : kwLoop w (sortKw kwargs) (parts Param.named s b) [] =
+      .ok (parts Param.named s b, (sortKw kwargs).filter
+        (fun e => !kwTaken w (parts Param.named s b) e.1)) := by
+    have := kwLoop_ok w (parts Param.named s b) (sortKw kwargs) [] hsnd (fun _ _ => rfl) ?_ ?_
+    · simpa using this
+    · intro e he ht
+      have hek : e ∈ kwargs := hsperm.mem_iff.mp he
+      have hv : dget e.1 kwargs = some e.2 := dget_of_mem hc hek
+      rw [kwTaken_iff ok hwf hlen] at ht
+      obtain ⟨p, hp, hpn⟩ := List.mem_map.mp ht
+      rw [List.mem_filter] at hp
+      rw [← hpn] at hv ⊢
+      exact dget_of_mem hnd (bindGo_keyword_value hwf hb hp.1 hp.2 hv)
+    · intro e he hf
+      rw [ok.varkw]
+      cases hany : s.any (Param.is .varKw) with
+      | true => rfl
+      | false =>
+        exfalso
+        have hek : e ∈ kwargs := hsperm.mem_iff.mp he
+        have hnot : e.1 ∉ kwNames s := by
+          rw [← kwTaken_iff ok hwf hlen, hf]; simp
+        have : e ∈ finalKw s kwargs := List.mem_filter.mpr ⟨hek, by simpa using hnot⟩
+        rw [hfin hany] at this; simp at this
+  -- the two variadic entries
+  have hvk_perm : ((sortKw kwargs).filter (fun e => !kwTaken w (parts Param.named s b) e.1)).Perm
+      (finalKw s kwargs) := by
+    refine (hsperm.filter _).trans ?_
+    unfold finalKw
+    rw [List.filter_congr]
+    intro e _
+    have := kwTaken_iff ok hwf hlen e.1
+    by_cases hm : e.1 ∈ kwNames s
+    · simp [hm, this.mpr hm]
+    · have : kwTaken w (parts Param.named s b) e.1 = false := by
+        cases ht : kwTaken w (parts Param.named s b) e.1 with
+        | false => rfl
+        | true => exact absurd (this.mp ht) hm
+      simp [hm, this]
+  have hstar := bindGo_star hwf hb
+  have hnpos : w.argNames.length - w.argKwonly.length = (s.filter Param.positional).length := by
+    rw [ok.names, ok.kwonly, List.length_map, List.length_map, named_length]; omega
+  -- the result of `core`
+  let dF : Dict := parts Param.named s b ++
+      (if s.any (Param.is .varKw) then
+        [(Key.dstar, Val.map ((sortKw kwargs).filter
+          (fun e => !kwTaken w (parts Param.named s b) e.1)))] else []) ++
+      (if s.any (Param.is .varPos) then
+        [(Key.star, Val.seq (args.drop (s.filter Param.positional).length))] else [])
+  have hcore : core w [] args kwargs = .ok dF := by
+    unfold core
+    rw [h1]; simp only; rw [h2]; simp only [ignoreLoop]
+    have hvkw := ok.varkw
+    have hvar := ok.varargs
+    cases hw1 : w.argVarkw <;> cases hw2 : w.argVarargs <;>
+      simp only [hw1, hw2, Option.isSome_none, Option.isSome_some] at hvkw hvar <;>
+      simp only [dF, ← hvkw, ← hvar, hnpos, if_true, Bool.false_eq_true, if_false, List.append_nil]
+    · rw [dset_of_none hstar_none]
+    · rw [dset_of_none hdstar_none]
+    · rw [dset_of_none hdstar_none, dset_of_none]
+      rw [dget_append, hstar_none]; simp [dget]
+  refine ⟨dF, hcore, ?_⟩
+  -- compare with Python's mapping, part by part
+  have hE : EntriesEq dF (parts Param.named s b ++ parts (Param.is .varKw) s b ++
+      parts (Param.is .varPos) s b) := by
+    rw [hds, hstar]
+    refine EntriesEq.append (EntriesEq.append (EntriesEq.refl _) ?_) (EntriesEq.refl _)
+    cases s.any (Param.is .varKw) with
+    | false => simp [EntriesEq]
+    | true => exact ⟨rfl, hvk_perm, trivial⟩
+  have hrename : rename s b = parts (fun _ => true) s b :=
+    rename_eq_parts s hnames (fun p hp => keyOf_of_mem hwf hp)
+  rw [hrename]
+  exact hE.perm_transport (parts_all_perm s b).symm
+
+/-- The bound-method block leaves the locals as the parameter loop over `self + signature` would
+(up to the order of `arg_posonlyargs`, which is only tested for membership). -/
+theorem walkOK_method {selfP : Param} {s : Sig} (h : WF (selfP :: s))
+    (hpos : selfP.positional = true) (hd : selfP.default = none) :
+    WalkOK (methodWalk selfP (walk s)) (selfP :: s) := by
+  have hs : WF s := (List.pairwise_cons.mp h).2
+  have ok := walkOK_walk hs
+  have hnamed : selfP.named = true := by
+    revert hpos; simp only [Param.positional, Param.named]; cases selfP.kind <;> simp
+  have hnk : selfP.is .kwOnly = false := by
+    revert hpos; simp only [Param.positional, Param.is]; cases selfP.kind <;> simp
+  have hnvp : selfP.is .varPos = false := by
+    revert hpos; simp only [Param.positional, Param.is]; cases selfP.kind <;> simp
+  have hnvk : selfP.is .varKw = false := by
+    revert hpos; simp only [Param.positional, Param.is]; cases selfP.kind <;> simp
+  refine ⟨?_, ?_, ?_, ?_, ?_, ?_⟩
+  · simp [methodWalk, ok.names, hnamed]
+  · simp [methodWalk, ok.kwonly, hnk]
+  · intro n
+    simp only [methodWalk, List.filter_cons]
+    by_cases hk : selfP.kind = .posOnly
+    · simp only [hk, if_true, Param.is, decide_true, List.map_cons, List.mem_append, List.mem_cons,
+        List.not_mem_nil, or_false]
+      rw [ok.posonly]; exact Or.comm
+    · have : selfP.is .posOnly = false := by simp [Param.is, hk]
+      simp only [hk, if_false, this, Bool.false_eq_true]
+      exact ok.posonly n
+  · intro p hp
+    rcases List.mem_cons.mp hp with rfl | hp'
+    · have hnot : p.name ∉ s.map (·.name) := (List.nodup_cons.mp h.nodup_names).1
+      simp only [methodWalk, walk]
+      rw [walkFrom_argDefaults_notin _ _ _ hnot, hd]; rfl
+    · exact ok.defaults p hp'
+  · simp [methodWalk, ok.varargs, hnvp]
+  · simp [methodWalk, ok.varkw, hnvk]
+
+/-! ### The ignore list -/
+
+theorem ignoreLoop_ok_iff {d : Dict} (hn : (d.map Prod.fst).Nodup) (ig : List Key) (d' : Dict) :
+    ignoreLoop ig d = .ok d' ↔
+      ig.Nodup ∧ (∀ k ∈ ig, k ∈ d.map Prod.fst) ∧ d' = d.filter (fun e => decide (e.1 ∉ ig)) := by
+  induction ig generalizing d with
+  | nil =>
+    have hf : d.filter (fun e => decide (e.1 ∉ ([] : List Key))) = d := by
+      rw [List.filter_eq_self]; intro e _; simp
+    rw [hf]
+    simp only [ignoreLoop, Except.ok.injEq, List.nodup_nil, List.not_mem_nil, true_and]
+    constructor
+    · rintro rfl; exact ⟨fun k h => h.elim, rfl⟩
+    · rintro ⟨_, h⟩; exact h.symm
+  | cons k r ih =>
+    rw [ignoreLoop]
+    by_cases hk : (dget k d).isSome = true
+    · rw [if_pos hk, ih (nodup_keys_dpop k hn), dpop_eq_filter hn]
+      have hkm : k ∈ d.map Prod.fst := (dget_isSome_iff k d).mp hk
+      have hmem : ∀ k' : Key, k' ∈ (d.filter (fun e => decide (e.1 ≠ k))).map Prod.fst ↔
+          (k' ≠ k ∧ k' ∈ d.map Prod.fst) := by
+        intro k'
+        simp only [List.mem_map, List.mem_filter, decide_eq_true_eq]
+        constructor
+        · rintro ⟨e, ⟨he, hne⟩, rfl⟩; exact ⟨hne, e, he, rfl⟩
+        · rintro ⟨hne, e, he, rfl⟩; exact ⟨e, ⟨he, hne⟩, rfl⟩
+      have hfilt : (d.filter (fun e => decide (e.1 ≠ k))).filter (fun e => decide (e.1 ∉ r))
+          = d.filter (fun e => decide (e.1 ∉ k :: r)) := by
+        rw [List.filter_filter]
+        apply List.filter_congr
+        intro e _
+        by_cases h1 : e.1 = k <;> by_cases h2 : e.1 ∈ r <;> simp [h1, h2]
+      rw [hfilt]
+      simp only [List.nodup_cons, List.mem_cons, forall_eq_or_imp]
+      constructor
+      · rintro ⟨hnd, hall, rfl⟩
+        refine ⟨⟨?_, hnd⟩, ⟨hkm, fun k' hk' => ((hmem k').mp (hall k' hk')).2⟩, rfl⟩
+        intro hkr
+        exact ((hmem k).mp (hall k hkr)).1 rfl
+      · rintro ⟨⟨hkr, hnd⟩, ⟨_, hall⟩, rfl⟩
+        refine ⟨hnd, fun k' hk' => (hmem k').mpr ⟨?_, hall k' hk'⟩, rfl⟩
+        rintro rfl; exact hkr hk'
+    · rw [if_neg hk]
+      have hkm : k ∉ d.map Prod.fst := fun h => hk ((dget_isSome_iff k d).mpr h)
+      constructor
+      · intro h; simp at h
+      · rintro ⟨_, hall, _⟩; exact absurd (hall k (List.mem_cons_self ..)) hkm
+
+theorem ignoreLoop_error {ig : List Key} {d : Dict} {e : Err} (h : ignoreLoop ig d = .error e) :
+    e = .ignoreUndefined := by
+  induction ig generalizing d with
+  | nil => simp [ignoreLoop] at h
+  | cons k r ih =>
+    rw [ignoreLoop] at h
+    split at h
+    · exact ih h
+    · cases h; rfl
+
+/-! ### Distinct keys of the result -/
+
+theorem mainLoop_nodup {w : Walk} {args : List Nat} {kwargs : List (Nat × Nat)} :
+    ∀ (ns : List Nat) (pos : Nat) (d d' : Dict), (d.map Prod.fst).Nodup →
+      mainLoop w args kwargs ns pos d = .ok d' → (d'.map Prod.fst).Nodup := by
+  intro ns
+  induction ns with
+  | nil => intro pos d d' hn h; simp [mainLoop] at h; rw [← h]; exact hn
+  | cons n ns ih =>
+    intro pos d d' hn h
+    rw [mainLoop] at h
+    split at h
+    · split at h
+      · simp at h
+      · exact ih _ _ _ (nodup_keys_dset _ _ hn) h
+    · split at h
+      · exact ih _ _ _ (nodup_keys_dset _ _ hn) h
+      · split at h
+        · exact ih _ _ _ (nodup_keys_dset _ _ hn) h
+        · simp at h
+
+theorem kwLoop_nodup {w : Walk} :
+    ∀ (l : List (Nat × Nat)) (d : Dict) (vk : List (Nat × Nat)) (r : Dict × List (Nat × Nat)),
+      (d.map Prod.fst).Nodup → kwLoop w l d vk = .ok r → (r.1.map Prod.fst).Nodup := by
+  intro l
+  induction l with
+  | nil => intro d vk r hn h; simp [kwLoop] at h; rw [← h]; exact hn
+  | cons e l ih =>
+    intro d vk r hn h
+    obtain ⟨k, v⟩ := e
+    rw [kwLoop] at h
+    split at h
+    · exact ih _ _ _ (nodup_keys_dset _ _ hn) h
+    · split at h
+      · exact ih _ _ _ hn h
+      · simp at h
+
+theorem ignoreLoop_nodup : ∀ (ig : List Key) (d d' : Dict), (d.map Prod.fst).Nodup →
+    ignoreLoop ig d = .ok d' → (d'.map Prod.fst).Nodup := by
+  intro ig
+  induction ig with
+  | nil => intro d d' hn h; simp [ignoreLoop] at h; rw [← h]; exact hn
+  | cons k r ih =>
+    intro d d' hn h
+    rw [ignoreLoop] at h
+    split at h
+    · exact ih _ _ (nodup_keys_dpop k hn) h
+    · simp at h
+
+theorem core_nodup {w : Walk} {ig : List Key} {args : List Nat} {kwargs : List (Nat × Nat)} {d : Dict}
+    (h : core w ig args kwargs = .ok d) : (d.map Prod.fst).Nodup := by
+  unfold core at h
+  split at h
+  · simp at h
+  · rename_i d1 h1
+    have n1 := mainLoop_nodup _ _ _ _ (by simp) h1
+    split at h
+    · simp at h
+    · rename_i d2 vk h2
+      have n2 : (d2.map Prod.fst).Nodup := kwLoop_nodup _ _ _ _ n1 h2
+      refine ignoreLoop_nodup _ _ _ ?_ h
+      cases w.argVarkw <;> cases w.argVarargs <;> simp only <;>
+        first | exact n2 | exact nodup_keys_dset _ _ n2 | exact nodup_keys_dset _ _ (nodup_keys_dset _ _ n2)
 
 end JoblibModel.FilterArgs
